@@ -179,11 +179,15 @@ type LifeScript struct {
 var portRng = mrand.New(mrand.NewSource(time.Now().UnixNano()))
 var portMu sync.Mutex
 
+// portLo/portN: the range ports are drawn from (outside the ephemeral range, so that no outgoing
+// connection of this machine can hold one).  Parallel shards of one check get disjoint ranges.
+var portLo, portN = 20000, 12000
+
 func freePort() int {
 	portMu.Lock()
 	defer portMu.Unlock()
 	for i := 0; i < 2000; i++ {
-		p := 20000 + portRng.Intn(12000)
+		p := portLo + portRng.Intn(portN)
 		l, err := net.Listen("tcp", fmt.Sprintf(":%d", p))
 		if err != nil {
 			continue
@@ -644,7 +648,13 @@ func cmdLife(args []string) {
 	scen := fs.String("scenarios", "", "script file (JSON lines)")
 	out := fs.String("out", "", "trace file")
 	timeoutMs := fs.Int("timeout-ms", 3000, "watchdog per wait")
+	shard := fs.Int("shard", 0, "this process runs the scripts whose (line-1) mod --of equals --shard")
+	of := fs.Int("of", 1, "number of parallel shards")
 	fs.Parse(args)
+	if *of > 1 {
+		portN = 12000 / *of
+		portLo = 20000 + *shard*portN
+	}
 	rec, err := NewRecorder(*out)
 	must(err)
 	rn := &runner{rec: rec, timeout: time.Duration(*timeoutMs) * time.Millisecond, g2c: map[int64]int{}}
@@ -666,6 +676,12 @@ func cmdLife(args []string) {
 		line, err := rd.ReadBytes('\n')
 		if len(bytes.TrimSpace(line)) > 0 {
 			idx++
+			if (idx-1)%*of != *shard {
+				if err != nil {
+					break
+				}
+				continue
+			}
 			var s LifeScript
 			must(json.Unmarshal(line, &s))
 			rn.runLife(idx, s, func(c *lifeCtl) {
